@@ -1076,6 +1076,18 @@ pub mod verif_hooks {
             .collect())
     }
 
+    /// The error with which the regex engine gives up on `subject`, if it does.
+    pub fn regex_match_error(
+        regextype: &str,
+        pattern: &str,
+        ignore_case: bool,
+        subject: &str,
+    ) -> Option<String> {
+        let ty = super::regex::RegexType::from_str(regextype).ok()?;
+        let m = super::regex::RegexMatcher::new(ty, pattern, ignore_case).ok()?;
+        m.match_error(subject)
+    }
+
     /// The -regex/-iregex matcher for `regextype` applied to the path `subject`
     /// (which need not exist). Errors are the ones find would report.
     pub fn regex_match(
